@@ -5,6 +5,7 @@ import (
 	"fmt"
 	"sync"
 	"sync/atomic"
+	"time"
 
 	"github.com/google/uuid"
 	"github.com/ngicks/genericcontainer/heapimpl"
@@ -86,6 +87,15 @@ func (r *InMemoryRepository) GetById(ctx context.Context, id string) (def.Task, 
 	return task.Task.Clone(), nil
 }
 
+// validTask is only used to test whether a param would update a task to an invalid state.
+var validTask = def.Task{
+	Id:          def.NeverExistentId,
+	WorkId:      "foo",
+	State:       def.TaskScheduled,
+	ScheduledAt: time.Date(2023, time.April, 23, 19, 28, 59, 123000000, time.UTC),
+	CreatedAt:   time.Date(2023, time.April, 22, 19, 28, 59, 123000000, time.UTC),
+}
+
 func (r *InMemoryRepository) UpdateById(
 	ctx context.Context,
 	id string,
@@ -95,6 +105,10 @@ func (r *InMemoryRepository) UpdateById(
 
 	if ctx.Err() != nil {
 		return ctx.Err()
+	}
+
+	if !validTask.Update(param).IsValid() {
+		return fmt.Errorf("%w: update to invalid state is not allowed", def.ErrInvalidTask)
 	}
 
 	r.mu.Lock()
